@@ -130,6 +130,15 @@ def check(ctx):
         ctx.unknown("R07.3", "kernel", "anchor function missing")
         return
     kfi = P.func("transform:_interp_1d_conservative")
+    from ..harness import guvectorize_contract
+
+    lay, probs = guvectorize_contract(kfi)
+    if probs:
+        ctx.report("R07.5", kfi, "guvectorize decoration of the kernel", "; ".join(probs))
+    elif lay != (["n", "n", "n", "m", "m"], ["m"]):
+        ctx.report("R07.5", kfi, "guvectorize decoration of the kernel", f"core dimensions {lay}: cells (phi, both bounds) must share one dimension, the bin edges and the output another")
+    else:
+        ctx.ok("R07.5", "guvectorize decoration of the kernel", "type list first, layout second, one entry per parameter; cells on n, bins and output on m")
     ots = []
     T3 = F(4 * (NB - 1) + 2 + 4 * NB + 2, 2)
     for ot in order_types_point_vs_edges(["t1", "t2"], EDGES):
@@ -232,15 +241,19 @@ def _flip(ctx, P):
     from ..concrete import REPRESENTATIVES_ALL, truth_hook
 
     res = []
-    for cls, vec in [(c, v) for c in ("increasing", "decreasing") for v in REPRESENTATIVES_ALL[c]]:
-        ev = Evaluator(P, models={"transform:_interp_1d_conservative": m_kernel}, call_hook=truth_hook({"bins": vec}))
-        try:
-            outs = ev.run_paths(fi, lambda: dict(phi=Obj("ndarray", "phi", (), {"shape": (Lin.sym("cols"), Lin.sym("n")), "ndim": 2}), theta=Obj("ndarray", "theta", (), {"shape": (Lin.sym("cols"), Lin.sym("n") + Lin.of(1)), "ndim": 2}), target_theta_bins=Obj("ndarray", "bins", (), {"ndim": 1})))
-        except Unmodelled as e:
-            ctx.unknown("R07.1", f"flip discipline ({cls} bins)", str(e))
-            return
-        for o in outs:
-            res.append((cls, o))
+    # symbolic column shapes, and concrete ones (several columns, one cell, a single 1-D column) on which the shape
+    # assertions of the source are decided
+    shapes = [((Lin.sym("cols"), Lin.sym("n")), (Lin.sym("cols"), Lin.sym("n") + Lin.of(1))), ((3, 5), (3, 6)), ((2, 7, 1), (2, 7, 2)), ((4,), (5,))]
+    for k, (cls, vec) in enumerate([(c, v) for c in ("increasing", "decreasing") for v in REPRESENTATIVES_ALL[c]]):
+        for ps, ts in (shapes if k % 3 == 0 else shapes[:1]):
+            ev = Evaluator(P, models={"transform:_interp_1d_conservative": m_kernel}, call_hook=truth_hook({"bins": vec}))
+            try:
+                outs = ev.run_paths(fi, lambda: dict(phi=Obj("ndarray", "phi", (), {"shape": ps, "ndim": len(ps)}), theta=Obj("ndarray", "theta", (), {"shape": ts, "ndim": len(ts)}), target_theta_bins=Obj("ndarray", "bins", (), {"ndim": 1, "shape": (4,)})))
+            except Unmodelled as e:
+                ctx.unknown("R07.1", f"flip discipline ({cls} bins)", str(e))
+                return
+            for o in outs:
+                res.append((cls if ps is shapes[0][0] else f"{cls} (columns of shape {ps})", o))
     rev = SliceV(None, None, -1)
 
     def identity(k):
@@ -255,13 +268,13 @@ def _flip(ctx, P):
     for cls, o in res:
         inst = f"{cls} bins"
         if o.kind != "return":
-            ctx.report("R07.1", fi, inst, f"strictly {cls} bins are refused ({o.value})")
+            ctx.report("R07.1", fi, inst, f"strictly {cls} bins are refused ({o.value}{': ' + str(getattr(o.exc, 'msg', '')) if getattr(o.exc, 'msg', None) else ''})")
             continue
         args = next(calls_iter, None)
         if args is None:
             ctx.report("R07.1", fi, "kernel call", "a returning path does not call the kernel")
             continue
-        decreasing = cls == "decreasing"
+        decreasing = cls.startswith("decreasing")
         phi, th1, th2, h1, h2 = args[:5]
         bad = None
         if gi(th1) != [(Ellipsis, SliceV(None, -1, None))] or gi(th2) != [(Ellipsis, SliceV(1, None, None))] or th1.name != "theta" or th2.name != "theta":
